@@ -1,0 +1,164 @@
+//go:build verif
+
+// Contracts for the verification machinery in /verif (comment-only; compiled only with -tags verif).
+//
+// L1 store accessors against the abstract store ent_store; L2 the locked-eFUND ledger and the purchase-order
+// life cycle against the L1 contracts and the assumed bank contracts (ghosts bank_bal, bank_supply).
+package keeper
+
+//@ ghost ent_store (Array enterprise.Key (Slice Int))
+//@ kvstore ent_store ent_key
+
+// ---------------------------------------------------------------- parameters
+
+//@ func Keeper.GetParams(ctx) (params)
+//@   props C03 C04 C05 C14 C16 C17
+//@   pure
+//@   ensures entParamsSet(ent_store) ==> params == entParams(ent_store)
+
+//@ func Keeper.GetParamDenom(ctx) (r)
+//@   props C03 C04 C05 C14 C16 C17
+//@   pure
+//@   ensures entParamsSet(ent_store) ==> r == entDenom(ent_store)
+
+//@ func Keeper.SetParams(ctx, params) (err)
+//@   props C16
+//@   modifies ent_store
+//@   ensures err == nil ==> ent_store == entParamsPut(old(ent_store), params) && validDenom(params.Denom) && params.MinAccepts >= 1 && params.DecisionTimeLimit >= 1 && len(splitOn(params.EntSigners, ",")) >= params.MinAccepts
+//@   ensures err != nil ==> ent_store == old(ent_store)
+
+// ---------------------------------------------------------------- L1: the locked / spent eFUND books
+
+//@ func Keeper.GetTotalLockedUnd(ctx) (c)
+//@   props C04 C05 C17 C14
+//@   requires ENT_BOOKS_WF(ent_store)
+//@   pure
+//@   nopanic
+//@   ensures !isnil(c.Amount) && Amt(c) == totalLockedAmt(ent_store) && c.Denom == entDenom(ent_store)
+
+//@ func Keeper.SetTotalLockedUnd(ctx, totalLocked) (err)
+//@   props C04 C05 C14
+//@   modifies ent_store
+//@   ensures err == nil && ent_store == old(ent_store)[kTotalLocked := coinBytes(totalLocked)]
+
+//@ func Keeper.GetTotalSpentEFUND(ctx) (c)
+//@   props C04 C05 C14
+//@   requires ENT_BOOKS_WF(ent_store)
+//@   pure
+//@   nopanic
+//@   ensures !isnil(c.Amount) && Amt(c) == totalSpentAmt(ent_store) && c.Denom == entDenom(ent_store)
+
+//@ func Keeper.SetTotalSpentEFUND(ctx, totalUsed) (err)
+//@   props C04 C05 C14
+//@   modifies ent_store
+//@   ensures err == nil && ent_store == old(ent_store)[kTotalSpent := coinBytes(totalUsed)]
+
+//@ func Keeper.AccountHasLockedUnd(ctx, address) (ok)
+//@   props C04 C05 C14
+//@   requires 1 <= len(address) && len(address) <= 255
+//@   pure
+//@   ensures ok == lockedHas(ent_store, bytesval(address))
+
+//@ func Keeper.GetLockedUndForAccount(ctx, address) (l)
+//@   props C04 C05 C14
+//@   requires 1 <= len(address) && len(address) <= 255 && ENT_BOOKS_WF(ent_store)
+//@   pure
+//@   nopanic
+//@   ensures lockedHas(ent_store, bytesval(address)) ==> l == lockedRec(ent_store, bytesval(address))
+//@   ensures !isnil(l.Amount.Amount) && Amt(l.Amount) == lockedAmt(ent_store, bytesval(address)) && l.Amount.Denom == entDenom(ent_store)
+//@   ensures validBech32(l.Owner) && bytesval(addrOf(l.Owner)) == bytesval(address)
+
+//@ func Keeper.GetLockedUndAmountForAccount(ctx, address) (c)
+//@   props C04 C05 C06
+//@   requires 1 <= len(address) && len(address) <= 255 && ENT_BOOKS_WF(ent_store)
+//@   pure
+//@   nopanic
+//@   ensures !isnil(c.Amount) && Amt(c) == lockedAmt(ent_store, bytesval(address)) && c.Denom == entDenom(ent_store)
+
+//@ func Keeper.IsLocked(ctx, address) (ok)
+//@   props C04 C05
+//@   requires 1 <= len(address) && len(address) <= 255 && ENT_BOOKS_WF(ent_store)
+//@   pure
+//@   nopanic
+//@   ensures ok == (lockedAmt(ent_store, bytesval(address)) > 0)
+
+//@ func Keeper.SetLockedUndForAccount(ctx, lockedUnd) (err)
+//@   props C04 C05 C14
+//@   requires !isnil(lockedUnd.Amount.Amount)
+//@   modifies ent_store
+//@   nopanic
+//@   ensures (err == nil) == (validBech32(lockedUnd.Owner) && Amt(lockedUnd.Amount) >= 0)
+//@   ensures err == nil ==> ent_store == lockedPut(old(ent_store), bytesval(addrOf(lockedUnd.Owner)), lockedUnd)
+//@   ensures err != nil ==> ent_store == old(ent_store)
+
+//@ func Keeper.AccountHasSpentEFUND(ctx, address) (ok)
+//@   props C04 C05 C14
+//@   requires 1 <= len(address) && len(address) <= 255
+//@   pure
+//@   ensures ok == spentHas(ent_store, bytesval(address))
+
+//@ func Keeper.GetSpentEFUNDForAccount(ctx, address) (sp)
+//@   props C04 C05 C14
+//@   requires 1 <= len(address) && len(address) <= 255 && ENT_BOOKS_WF(ent_store)
+//@   pure
+//@   nopanic
+//@   ensures spentHas(ent_store, bytesval(address)) ==> sp == spentRec(ent_store, bytesval(address))
+//@   ensures !isnil(sp.Amount.Amount) && Amt(sp.Amount) == spentAmt(ent_store, bytesval(address)) && sp.Amount.Denom == entDenom(ent_store)
+//@   ensures validBech32(sp.Owner) && bytesval(addrOf(sp.Owner)) == bytesval(address)
+
+//@ func Keeper.SetSpentEFUNDForAccount(ctx, spent) (err)
+//@   props C04 C05 C14
+//@   modifies ent_store
+//@   ensures (err == nil) == validBech32(spent.Owner)
+//@   ensures err == nil ==> ent_store == spentPut(old(ent_store), bytesval(addrOf(spent.Owner)), spent)
+//@   ensures err != nil ==> ent_store == old(ent_store)
+
+// ---------------------------------------------------------------- L2: ledger arithmetic (C04: every step moves the account entry and the total by the same amount)
+
+//@ func Keeper.incrementLockedUnd(ctx, address, amount) (err)
+//@   props C04 C05 C03 C14
+//@   requires 1 <= len(address) && len(address) <= 255 && ENT_BOOKS_WF(ent_store)
+//@   requires !isnil(amount.Amount) && 0 <= Amt(amount) && amount.Denom == entDenom(ent_store)
+//@   requires lockedAmt(ent_store, bytesval(address)) + Amt(amount) < P255 && totalLockedAmt(ent_store) + Amt(amount) < P255
+//@   let a := bytesval(address)
+//@   let l1 := lockedRec(ent_store, bytesval(address))
+//@   modifies ent_store
+//@   nopanic
+//@   ensures @ok err == nil
+//@   ensures @exact_store ent_store == lockedPut(old(ent_store), a, l1)[kTotalLocked := ent_store[kTotalLocked]]
+//@   ensures @account lockedAmt(ent_store, a) == lockedAmt(old(ent_store), a) + Amt(amount)
+//@   ensures @total totalLockedAmt(ent_store) == totalLockedAmt(old(ent_store)) + Amt(amount)
+//@   ensures @wf ENT_BOOKS_WF(ent_store)
+
+//@ func Keeper.decrementLockedUnd(ctx, address, amount) (err)
+//@   props C04 C05 C14
+//@   requires 1 <= len(address) && len(address) <= 255 && ENT_BOOKS_WF(ent_store)
+//@   requires !isnil(amount.Amount) && 0 < Amt(amount) && amount.Denom == entDenom(ent_store)
+//@   requires Amt(amount) <= lockedAmt(ent_store, bytesval(address)) && Amt(amount) <= totalLockedAmt(ent_store)
+//@   let a := bytesval(address)
+//@   let l1 := lockedRec(ent_store, bytesval(address))
+//@   modifies ent_store
+//@   nopanic
+//@   ensures @ok err == nil
+//@   ensures @exact_store ent_store == lockedPut(old(ent_store), a, l1)[kTotalLocked := ent_store[kTotalLocked]]
+//@   ensures @account lockedAmt(ent_store, a) == lockedAmt(old(ent_store), a) - Amt(amount)
+//@   ensures @total totalLockedAmt(ent_store) == totalLockedAmt(old(ent_store)) - Amt(amount)
+//@   ensures @wf ENT_BOOKS_WF(ent_store)
+
+//@ func Keeper.incrementSpentEFUND(ctx, address, amount) (err)
+//@   props C04 C05 C14
+//@   requires 1 <= len(address) && len(address) <= 255 && ENT_BOOKS_WF(ent_store)
+//@   requires !isnil(amount.Amount) && 0 <= Amt(amount) && amount.Denom == entDenom(ent_store)
+//@   requires spentAmt(ent_store, bytesval(address)) + Amt(amount) < P255 && totalSpentAmt(ent_store) + Amt(amount) < P255
+//@   let a := bytesval(address)
+//@   let s1 := spentRec(ent_store, bytesval(address))
+//@   modifies ent_store
+//@   nopanic
+//@   ensures @ok err == nil
+//@   ensures @exact_store ent_store == spentPut(old(ent_store), a, s1)[kTotalSpent := ent_store[kTotalSpent]]
+//@   ensures @account spentAmt(ent_store, a) == spentAmt(old(ent_store), a) + Amt(amount)
+//@   ensures @total totalSpentAmt(ent_store) == totalSpentAmt(old(ent_store)) + Amt(amount)
+//@   ensures @wf ENT_BOOKS_WF(ent_store)
+
+//@ func Keeper.sendCoinsFromModuleToAccount(ctx, recipientAddr, newCoins)
+//@   inline
